@@ -3,7 +3,7 @@
 namespace mm {
 bool build_group_s4(const Spec& s, XVisitor& v) {
   S_GROUP_HEAD
-  S_P("b00", BandEngine<ROW_MAJOR MM_COMMA 0 MM_COMMA 0>, 0) S_PA("b11", BandEngine<ROW_MAJOR MM_COMMA 1 MM_COMMA 1>, 2)
+  S_P("b00", BandEngine<ROW_MAJOR MM_COMMA 0 MM_COMMA 0>, 0) S_PA("b11", BandEngine<ROW_MAJOR MM_COMMA 1 MM_COMMA 1>, 2, 0)
   S_P("b22", BandEngine<ROW_MAJOR MM_COMMA 2 MM_COMMA 2>, 0)
   return false;
 }
